@@ -92,6 +92,9 @@ def run_once(mod: Any, seed: int | None = None, tape: list[int] | None = None,
         err = f"HarnessError: {exc}"
     except Exception as exc:  # noqa: BLE001 - a bug in the check itself
         err = "".join(traceback.format_exception(type(exc), exc, exc.__traceback__)[-8:])
+    if os.environ.get("VERIF_DUMP_EVENTS"):  # debugging aid: the whole event log and tape of this run
+        with open(os.environ["VERIF_DUMP_EVENTS"], "w") as f:
+            f.write("\n".join(str(e) for e in ctx.log.events) + "\nTAPE " + str(list(zip(ch.tape, ch.labels))) + "\n")
     faults = dict(ch.faults)
     fault_key = hashlib.blake2b(json.dumps(sorted(faults.items())).encode(), digest_size=8).hexdigest()
     own = [v for v in ctx.violations if v.prop == mod.PROPERTY]
